@@ -676,6 +676,8 @@ func (c11) Exec(c string) (string, []Fail) {
 	switch {
 	case f[0] == "conc" || f[0] == "concli":
 		return c11ExecConc(c) // harness/c11_conc.go
+	case f[0] == "glue":
+		return c11ExecGlue(c) // harness/c11_glue.go
 	case f[0] == "pcr" && len(f) == 11:
 		o, ok := c11ParseOpt(f[1:10])
 		if !ok {
@@ -2148,6 +2150,8 @@ func (c11) Gen(rng *rand.Rand, tier string, emit func(string)) {
 	}
 	// the worker closure / the whole command under concurrent use (harness/c11_conc.go) — LAST: the cases above keep their draws
 	c11GenConc(rng, tier, emit)
+	// the command line of obipcr down to the amplicons (harness/c11_glue.go) — after everything else: the cases above keep their draws
+	c11GenGlue(rng, tier, emit)
 }
 
 // obipcr without --fragmented on one (short) template
